@@ -1,28 +1,29 @@
 /-
 C13c (numerical layer of C13, cube root) — the model's `F64.cbrt` is correctly rounded, and `TwoFloat::cbrt`
 (`x0 = cbrt(hi)` as an `f64`, then two Newton steps `x ← x − (x²·x − a)/(3·x²)` in double-double arithmetic) is accurate
-to `7u² = 7·2^-106` relative to the exact real cube root (the property asks for `16u²`), both signs.
+to `7u² = 7·2^-106` relative to the exact real cube root (the property asks for `16u²`), for every valid well-formed
+argument with `|x.hi| ∈ [2^-900, 2^900]`, both signs.  No side conditions.
 
 Units: `x.V` is the value of `x` in units of `2^-1074`; if `R` is the (scaled) value of the result then
 `(R/2^1074)³ ≈ x.V/2^1074 ⇔ R³ ≈ x.V·2^2148`, so the exact scaled cube root is the real `C` with `C³ = x.V·(2^1074)²`
 (unique, since cubing is injective on `ℝ`).  Every bound is given with that `C` and as a root-free integer inequality
 on cubes `(2^106 − 7)³·|x.V|·unit² ≤ (2^106·|R|)³ ≤ (2^106 + 7)³·|x.V|·unit²` plus the sign of `R`.
 
-What is proved (proofs in `TFV/Lemmas/Rest.lean`, §3–§6):
-* `f64_cbrt_correctly_rounded` — `F64.cbrt` returns the nearest double (ties to even) to the real cube root.
-* `cbrt_bound` / `cbrt_bound_16u2` / `cbrt_bound_int` — UNCONDITIONAL for every valid, well-formed `x` with
-  `|x.hi| ∈ [2^-59, 2^900]`: the result is a valid well-formed pair within `7u²` of `∛x`.
-* `cbrt_bound_of_numOK` — the same on the property's full range `|x.hi| ∈ [2^-900, 2^900]` under the side conditions
-  `CbrtBound.NumOK` on the two Newton numerators `n = x²·x ⊖ a` (each is exactly zero, or `|n.hi| ≥ 2^-1010` and
-  `|n.hi / (3x²).hi| ≥ 2^-1010`): these make the long division `n / (3x²)` fall in the range `F64.DivRange` in which
-  it is known to return a normalised pair.
-  OPEN: `|x.hi| ∈ [2^-900, 2^-59)` without the side conditions.  There the Newton numerator of the second step is
-  about `2^-102·|x|`, so for `|x| < 2^-908` it is ALWAYS below `2^-1010`, and a non-zero numerator of a few units of
-  `2^-1074` divided by a denominator `3x² ≈ 2^-600` produces three quotient digits of comparable size; the validity of
-  `renorm3` on such digits is not covered by the lemmas available (no counterexample was found: 21000 random divisions
-  with tiny numerators all returned normalised pairs).
-* `div_tt_valid_any_numerator` — by-product: `TwoFloat / TwoFloat` returns a normalised pair for EVERY valid
-  numerator (down to zero) when the divisor is at least `2^-41` in magnitude.
+What is proved (proofs in `TFV/Lemmas/Rest.lean`, §2b–§6):
+* `f64_cbrt_correctly_rounded`, `icbrt_floor` — `F64.cbrt` returns the nearest double (ties to even) to the real cube
+  root.
+* `cbrt_bound` (`7u²`), `cbrt_bound_16u2` (the property's constant), `cbrt_bound_int` (root-free form).
+* `cbrt_newton_step` — one Newton step: relative error `E ≤ 2^-50` in, `1.001·E² + 6.5u²` out.
+* `div_tt_valid_any_numerator` — by-product needed for the Newton correction, whose numerator `x²·x ⊖ a` can be
+  arbitrarily small (even a few units of `2^-1074`) or exactly zero: `TwoFloat / TwoFloat` returns a normalised pair for
+  EVERY valid numerator and every divisor (only the overflow-side bounds are assumed), with
+  `|a·2^1074 − q·b| ≤ 2^-37|a·2^1074| + 2^55|b.hi| + 2^11·2^1074` (scaled integers).  Four regimes: numerator zero
+  (all digits zero); `F64.DivRange` (the existing analysis, here with the absolute error terms kept:
+  `TwoFloat.div_tt_acc_abs`); numerator at least `2^9` absolute-error levels (`TwoFloat.div_tt_alpha`: the first
+  quotient digit dominates, `renorm3_crude`); otherwise either the divisor is at least `2^-41` (`TwoFloat.div_tt_crude`:
+  all digits are small integers and `renorm3` is exact, or the first dominates) or the numerator is at most `2^10`
+  units and the divisor below `2^-41` (`CbrtBound.div_tt_tiny`: the partial product is exact and the remainder
+  vanishes).
 
 Error budget of one Newton step from relative error `E` (`CbrtReal.newton_norm`): `1.001·E²` (Newton) `+ 3.34u²`
 (the two products in `x²·x`, `5u²` each, divided by 3) `+ 3.01u²` (the final subtraction) `+ O(u³)` `≤ 1.001E² + 6.5u²`.
@@ -52,64 +53,61 @@ theorem icbrt_floor (m : Nat) : (F64.icbrt m) ^ 3 ≤ m ∧ m < (F64.icbrt m + 1
 
 /-! ### `TwoFloat::cbrt` -/
 
-/-- **C13, `cbrt`, unconditional on `|x.hi| ∈ [2^-59, 2^900]`** (scaled `[2^1015, 2^1974]`): valid well-formed result
-within `7·2^-106` of the real cube root `C` (`C³ = x.V·2^2148`). -/
+/-- **C13, `cbrt`: `|x.hi| ∈ [2^-900, 2^900]`** (scaled `[2^174, 2^1974]`), both signs: valid well-formed result within
+`7·2^-106` of the real cube root `C` (`C³ = x.V·2^2148`). -/
 theorem cbrt_bound {x : TwoFloat} (hv : x.Valid) (hw : x.WF)
-    (hlo : 2 ^ 1015 ≤ |x.hi.toInt|) (hhi : |x.hi.toInt| ≤ 2 ^ 1974) :
+    (hlo : 2 ^ 174 ≤ |x.hi.toInt|) (hhi : |x.hi.toInt| ≤ 2 ^ 1974) :
     (TwoFloat.cbrt x).Valid ∧ (TwoFloat.cbrt x).WF ∧
     ∃ C : ℝ, C ^ 3 = (x.V : ℝ) * (2 ^ 1074) ^ 2 ∧
       2 ^ 106 * |((TwoFloat.cbrt x).V : ℝ) - C| ≤ 7 * |C| :=
-  cbrt_val_mid hv hw hlo hhi
+  cbrt_val hv hw hlo hhi
 
 /-- the property's constant `16u²` -/
 theorem cbrt_bound_16u2 {x : TwoFloat} (hv : x.Valid) (hw : x.WF)
-    (hlo : 2 ^ 1015 ≤ |x.hi.toInt|) (hhi : |x.hi.toInt| ≤ 2 ^ 1974) :
+    (hlo : 2 ^ 174 ≤ |x.hi.toInt|) (hhi : |x.hi.toInt| ≤ 2 ^ 1974) :
     (TwoFloat.cbrt x).Valid ∧
     ∃ C : ℝ, C ^ 3 = (x.V : ℝ) * (2 ^ 1074) ^ 2 ∧
       2 ^ 106 * |((TwoFloat.cbrt x).V : ℝ) - C| ≤ 16 * |C| := by
-  obtain ⟨h1, -, C, hC, hb⟩ := cbrt_val_mid hv hw hlo hhi
+  obtain ⟨h1, -, C, hC, hb⟩ := cbrt_val hv hw hlo hhi
   exact ⟨h1, C, hC, by have := abs_nonneg C; linarith⟩
 
 /-- root-free form: `(1 − 7u²)³·|x| ≤ |r|³ ≤ (1 + 7u²)³·|x|` on scaled integers, and `r` has the sign of `x` -/
 theorem cbrt_bound_int {x : TwoFloat} (hv : x.Valid) (hw : x.WF)
-    (hlo : 2 ^ 1015 ≤ |x.hi.toInt|) (hhi : |x.hi.toInt| ≤ 2 ^ 1974) :
+    (hlo : 2 ^ 174 ≤ |x.hi.toInt|) (hhi : |x.hi.toInt| ≤ 2 ^ 1974) :
     (2 ^ 106 - 7) ^ 3 * (|x.V| * (unit : Int) ^ 2) ≤ (2 ^ 106 * |(TwoFloat.cbrt x).V|) ^ 3 ∧
     (2 ^ 106 * |(TwoFloat.cbrt x).V|) ^ 3 ≤ (2 ^ 106 + 7) ^ 3 * (|x.V| * (unit : Int) ^ 2) ∧
     (0 < x.V → 0 < (TwoFloat.cbrt x).V) ∧ (x.V < 0 → (TwoFloat.cbrt x).V < 0) := by
-  obtain ⟨-, -, C, hC, hb⟩ := cbrt_val_mid hv hw hlo hhi
+  obtain ⟨-, -, C, hC, hb⟩ := cbrt_val hv hw hlo hhi
   exact cubes_of_real hC hb
-
-/-- **C13, `cbrt`, the property's full range `|x.hi| ∈ [2^-900, 2^900]`, PARTIAL**: under the side conditions `NumOK` on
-the two Newton numerators (zero, or in the range of the long division). -/
-theorem cbrt_bound_of_numOK {x : TwoFloat} (hv : x.Valid) (hw : x.WF)
-    (hlo : 2 ^ 174 ≤ |x.hi.toInt|) (hhi : |x.hi.toInt| ≤ 2 ^ 1974)
-    (H1 : NumOK (cbrtNum (convert.impl_From_f64_for_TwoFloat.from (F64.cbrt x.hi)) x)
-      (cbrtDen (convert.impl_From_f64_for_TwoFloat.from (F64.cbrt x.hi))))
-    (H2 : NumOK (cbrtNum (cbrtStep (convert.impl_From_f64_for_TwoFloat.from (F64.cbrt x.hi)) x) x)
-      (cbrtDen (cbrtStep (convert.impl_From_f64_for_TwoFloat.from (F64.cbrt x.hi)) x))) :
-    (TwoFloat.cbrt x).Valid ∧ (TwoFloat.cbrt x).WF ∧
-    ∃ C : ℝ, C ^ 3 = (x.V : ℝ) * (2 ^ 1074) ^ 2 ∧
-      2 ^ 106 * |((TwoFloat.cbrt x).V : ℝ) - C| ≤ 7 * |C| :=
-  cbrt_val_of_numOK hv hw hlo hhi H1 H2
 
 /-- one Newton step, as used twice above: relative error `E ≤ 2^-50` in, `1.001·E² + 6.5·2^-106` out -/
 theorem cbrt_newton_step {x a : TwoFloat} {C E : ℝ} (hvx : x.Valid) (hwx : x.WF) (hva : a.Valid) (hwa : a.WF)
     (ha1 : 2 ^ 174 ≤ |a.hi.toInt|) (ha2 : |a.hi.toInt| ≤ 2 ^ 1974)
     (hCa : C ^ 3 = (a.V : ℝ) * (2 ^ 1074) ^ 2) (hE0 : 0 ≤ E) (hE : E ≤ 1 / 2 ^ 50)
-    (hx : |(x.V : ℝ) - C| ≤ E * |C|)
-    (H : NumOK (cbrtNum x a) (cbrtDen x) ∨ 2 ^ 1054 ≤ |C|) :
+    (hx : |(x.V : ℝ) - C| ≤ E * |C|) :
     (cbrtStep x a).Valid ∧ (cbrtStep x a).WF ∧
     |((cbrtStep x a).V : ℝ) - C| ≤ ((1001 / 1000) * E ^ 2 + (13 / 2) * (1 / 2 ^ 106)) * |C| :=
-  cbrt_step hvx hwx hva hwa ha1 ha2 hCa hE0 hE hx H
+  cbrt_step hvx hwx hva hwa ha1 ha2 hCa hE0 hE hx
 
-/-- by-product: **`TwoFloat / TwoFloat` returns a normalised pair for every valid numerator** (no lower bound) as soon
-as the divisor is at least `2^-41` in magnitude -/
-theorem div_tt_valid_any_numerator {a b : TwoFloat} (ha : a.Valid) (hwa : a.WF) (hb : b.Valid)
-    (A_hi : |a.hi.toInt| ≤ 2 ^ 2090) (B_hi : |b.hi.toInt| ≤ 2 ^ 2090)
-    (Q_hi : |a.hi.toInt * (unit : Int)| ≤ 2 ^ 2090 * |b.hi.toInt|)
-    (hβ : (unit : Int) ≤ 2 ^ 41 * |b.hi.toInt|) :
-    (a /. b).Valid ∧ (a /. b).WF :=
-  ⟨(TwoFloat.div_tt_crude ha hwa hb A_hi B_hi Q_hi hβ).1, (TwoFloat.div_tt_crude ha hwa hb A_hi B_hi Q_hi hβ).2.1⟩
+/-- `TwoFloat::cbrt` on a non-zero high word is two Newton steps from the correctly rounded `f64` cube root -/
+theorem cbrt_unfold (x : TwoFloat) (hf : x.hi.is_finite = true) (h0 : x.hi.toInt ≠ 0) :
+    TwoFloat.cbrt x = cbrtStep (cbrtStep (convert.impl_From_f64_for_TwoFloat.from (F64.cbrt x.hi)) x) x :=
+  cbrt_eq x hf h0
+
+/-- by-product: **`TwoFloat / TwoFloat` returns a normalised pair for every valid numerator and every non-zero
+divisor** — only the overflow-side bounds `|n.hi|, |m.hi| ≤ 2^1016`, `|n.hi / m.hi| ≤ 2^1016` are assumed — with a crude
+but sufficient accuracy statement -/
+theorem div_tt_valid_any_numerator {n m : TwoFloat} (nv : n.Valid) (nw : n.WF) (mv : m.Valid) (mw : m.WF)
+    (hy0 : m.hi.toInt ≠ 0)
+    (A_hi : |n.hi.toInt| ≤ 2 ^ 2090) (B_hi : |m.hi.toInt| ≤ 2 ^ 2090)
+    (Q_hi : |n.hi.toInt * (unit : Int)| ≤ 2 ^ 2090 * |m.hi.toInt|) :
+    (n /. m).Valid ∧ (n /. m).WF ∧
+    2 ^ 37 * |n.V * (unit : Int) - (n /. m).V * m.V|
+      ≤ |n.V * (unit : Int)| + 2 ^ 92 * |m.hi.toInt| + 2 ^ 48 * (unit : Int) := by
+  have hU : (unit : Int) = 2 ^ 1074 := by rw [unit_eq]; norm_cast
+  have h1 : 1 ≤ |m.hi.toInt| := by
+    have := abs_pos.2 hy0; omega
+  exact div_tt_any nv nw mv mw hy0 (by rw [hU]; omega) (by rw [hU]; omega) A_hi B_hi Q_hi
 
 /-! ### instances on concrete operands (hypotheses discharged by kernel evaluation) -/
 
@@ -136,22 +134,44 @@ example :
     (2 ^ 106 * |(TwoFloat.cbrt x).V|) ^ 3 ≤ (2 ^ 106 + 7) ^ 3 * (|x.V| * (unit : Int) ^ 2) := by
   decide +kernel
 
-/-- a small argument, `2^-800·(1 + 2^-52)` with a low word: outside the unconditional range; the side conditions are
-checked by kernel evaluation -/
+/-- the bottom of the range: `2^-900·(1 + 2^-52)` with a low word of `2^-955` -/
 example :
-    let x : TwoFloat := ⟨f64lit 0x0df0000000000001, f64lit 0x0a80000000000000⟩
+    let x : TwoFloat := ⟨f64lit 0x07b0000000000001, f64lit 0x0440000000000000⟩
     (TwoFloat.cbrt x).Valid ∧ (TwoFloat.cbrt x).WF ∧
     ∃ C : ℝ, C ^ 3 = (x.V : ℝ) * (2 ^ 1074) ^ 2 ∧ 2 ^ 106 * |((TwoFloat.cbrt x).V : ℝ) - C| ≤ 7 * |C| :=
-  cbrt_bound_of_numOK (x := ⟨f64lit 0x0df0000000000001, f64lit 0x0a80000000000000⟩)
+  cbrt_bound (x := ⟨f64lit 0x07b0000000000001, f64lit 0x0440000000000000⟩)
     (by decide +kernel) ⟨by decide +kernel, by decide +kernel⟩ (by decide +kernel) (by decide +kernel)
-    (by decide +kernel) (by decide +kernel)
 
-/-- a perfect cube: both Newton numerators vanish (`NumOK` holds by its first alternative) -/
+/-- the top of the range, negative: `−2^900` -/
+example :
+    let x : TwoFloat := ⟨f64lit 0xf830000000000000, F64.zero⟩
+    (2 ^ 106 - 7) ^ 3 * (|x.V| * (unit : Int) ^ 2) ≤ (2 ^ 106 * |(TwoFloat.cbrt x).V|) ^ 3 ∧
+    (2 ^ 106 * |(TwoFloat.cbrt x).V|) ^ 3 ≤ (2 ^ 106 + 7) ^ 3 * (|x.V| * (unit : Int) ^ 2) ∧
+    (0 < x.V → 0 < (TwoFloat.cbrt x).V) ∧ (x.V < 0 → (TwoFloat.cbrt x).V < 0) :=
+  cbrt_bound_int (x := ⟨f64lit 0xf830000000000000, F64.zero⟩)
+    (by decide +kernel) ⟨by decide +kernel, by decide +kernel⟩ (by decide +kernel) (by decide +kernel)
+
+/-- a perfect cube: the Newton numerator vanishes and `0 / (3x²)` is the zero pair -/
 example :
     let x : TwoFloat := ⟨f64lit 0x4020000000000000, F64.zero⟩
-    NumOK (cbrtNum (convert.impl_From_f64_for_TwoFloat.from (F64.cbrt x.hi)) x)
-      (cbrtDen (convert.impl_From_f64_for_TwoFloat.from (F64.cbrt x.hi))) ∧
-    (cbrtNum (convert.impl_From_f64_for_TwoFloat.from (F64.cbrt x.hi)) x).V = 0 := by
+    let x0 := convert.impl_From_f64_for_TwoFloat.from (F64.cbrt x.hi)
+    (arithmetic.impl_Sub_rTwoFloat_for_rTwoFloat.sub
+      (arithmetic.impl_Mul_rTwoFloat_for_rTwoFloat.mul (arithmetic.impl_Mul_rTwoFloat_for_rTwoFloat.mul x0 x0) x0) x).V
+      = 0 ∧ TwoFloat.cbrt x = ⟨f64lit 0x4000000000000000, F64.zero⟩ := by
   decide +kernel
+
+/-- division of a tiny numerator (5 units of `2^-1074`) by a small divisor (`≈ 3·2^-600`): a normalised pair -/
+example :
+    let n : TwoFloat := ⟨F64.fin false 5, F64.zero⟩
+    let m : TwoFloat := ⟨f64lit 0x1a78000000000000, F64.zero⟩
+    (n /. m).Valid ∧ (n /. m).WF :=
+  ⟨(div_tt_valid_any_numerator (n := ⟨F64.fin false 5, F64.zero⟩) (m := ⟨f64lit 0x1a78000000000000, F64.zero⟩)
+      (by decide +kernel) ⟨by decide +kernel, by decide +kernel⟩ (by decide +kernel)
+      ⟨by decide +kernel, by decide +kernel⟩ (by decide +kernel) (by decide +kernel) (by decide +kernel)
+      (by decide +kernel)).1,
+   (div_tt_valid_any_numerator (n := ⟨F64.fin false 5, F64.zero⟩) (m := ⟨f64lit 0x1a78000000000000, F64.zero⟩)
+      (by decide +kernel) ⟨by decide +kernel, by decide +kernel⟩ (by decide +kernel)
+      ⟨by decide +kernel, by decide +kernel⟩ (by decide +kernel) (by decide +kernel) (by decide +kernel)
+      (by decide +kernel)).2.1⟩
 
 end C13c
